@@ -55,7 +55,10 @@ def run(ctx: Ctx) -> None:
     cs2 = repo.func("protocol.h2", "H2Protocol._close_stream")
     pops = [c for c in calls(cs2) if call_name(c) == "self.streams.pop"]
     hs = [c for c in calls(cs2) if isinstance(c.func, ast.Attribute) and c.func.attr == "handle" and "StreamClosed" in norm(c)]
-    ok = len(pops) == 1 and len(hs) == 1 and pops[0].lineno < hs[0].lineno and ("stream_id in self.streams", True) in guard_atoms(pops[0]) and norm(hs[0].func.value) == "stream"
+    from ..astq import expand_locals
+
+    recv = norm(expand_locals(hs[0].func.value, cs2)) if hs else ""
+    ok = len(pops) == 1 and len(hs) == 1 and (pops[0].lineno, pops[0].col_offset) <= (hs[0].lineno, hs[0].col_offset) and ("stream_id in self.streams", True) in guard_atoms(pops[0]) and recv == "self.streams.pop(stream_id)"
     ok = ok and guard_atoms(hs[0]) == {("stream_id in self.streams", True)} and isinstance(getattr(hs[0], "_parent", None), ast.Await)
     ctx.check("C03.R6", "protocol.h2:H2Protocol._close_stream", "stream popped from the table, then always notified (StreamClosed)", ok, "every registered stream must be told StreamClosed when it is removed (an extra condition - e.g. skipping idle streams - leaves a closed WebSocket's application without its websocket.disconnect); the pop comes first so that a second close finds nothing", cs2)
 
